@@ -7,6 +7,7 @@ from ..runner import Prop, Group
 from .c05 import exact_eating
 
 class C07(Prop):
+    layouts = True
     pid = "C07"
     sources = ["socialchoicekit/randomized_allocation.py", "socialchoicekit/bistochastic.py"]
     groups = {"rsd": Group("rsd", "From SCK Require Import RSD RunRSD.", "RunRSD.rsd_case", "RunRSD.chk_rsd"),
@@ -67,9 +68,9 @@ class C07(Prop):
         from socialchoicekit.profile_utils import StrictProfile
         dt = {"int64": np.int64, "int32": np.int32, "float": float}[case["dtype"]]
         if dt is float:
-            A = np.array([[np.nan if x is None else float(x) for x in row] for row in case["P"]], dtype=float)
+            A = lay(np.array([[np.nan if x is None else float(x) for x in row] for row in case["P"]], dtype=float), case.get("layout"))
         else:
-            A = np.array(case["P"], dtype=dt)
+            A = lay(np.array(case["P"], dtype=dt), case.get("layout"))
         A0 = A.copy()
         rec = {"order": None, "choice": None}
         oshuf, ochoice = np.random.shuffle, np.random.choice
